@@ -1,0 +1,9 @@
+//go:build verif
+// +build verif
+
+// Contracts for the deductive verifier in /verif (govc). Comment-only: no executable code.
+package net
+
+// The lookup key of a Host header: lower-cased, and without the port when there is one (C10).
+//@ func HostWithoutPort props C10
+//@   pure-def hostNoPort(hostport)
